@@ -21,7 +21,7 @@ from ..probe import Probe
 BOUNDS = ('entry date e, body b, child d, trailing sleep w, notification parameter u (and u2) '
           'in [0,30] (dates may lie before, at or after the entry); setter postponements p<=1; '
           'nested: two date notifications of kinds ==, >=, +; till: 2 sleepers x 2 sleeps and '
-          'a ticker, T in [start, start+40]')
+          'a ticker (period in [8,30]), T in [start, start+40]')
 ASSUMPTIONS = ['run(till=T) is used with T >= start']
 
 (DELAY, MOMENT, AFTER, BEFORE, FLAG, INV_FLAG, TRACKED, TASK_DONE, OR_FLAG_MOMENT,
@@ -271,7 +271,7 @@ def fam_till(E, real=False, ticker=True):
     dT = E.num('dT', 0, 40, real=real)
     T = start + dT
     ds = [[E.num('d%d_%d' % (i, j), 0, 30, real=real) for j in range(2)] for i in range(2)]
-    per = E.num('per', 1, 30, real=real) if ticker else None
+    per = E.num('per', 8, 30, real=real) if ticker else None
     log = Log()
 
     async def sleeper(i):
